@@ -173,10 +173,15 @@ struct JSONUtils {
                                         return 0;
                                     }
 
-                                    code = (((code ^ 0xD800U) << 10U) + (low & 0x3FFU) + 0x10000U);
-                                    Unicode::ToUTF<Char_T>(code, stream);
-                                    offset2 = offset;
-                                    continue;
+                                    if (low >= 0xDC00U) {
+                                        code = (((code ^ 0xD800U) << 10U) + (low & 0x3FFU) + 0x10000U);
+                                        Unicode::ToUTF<Char_T>(code, stream);
+                                        offset2 = offset;
+                                        continue;
+                                    }
+
+                                    // Not a second half: the escape is read on its own in the next round.
+                                    offset -= SizeT{6};
                                 }
 
                                 // A high surrogate that nothing follows is kept as it is, like a lone low one; the units
